@@ -81,7 +81,9 @@ check(
     "TLC evaluates the reference semantics, in which a failed branch simply returns the caller's state, on r = {SETUP ~ MID ~ PROBE} for every stack terminal (alone and in two-element sequences) in 13 backtracking "
     "contexts x 3 setups x 4 probes x all inputs to the bound; interpreter and generated module must return the reference outcome and never raise. Code->spec: the checkpoint/ok/restore calls of real parses "
     "(stack grammars, bundled grammars, sampled family grammars; four modes) are recorded with position, user stack and depths before and after, and TLC validates each parse as a behaviour of StateTrace.tla: checkpoint and ok leave the "
-    "state unchanged, restore returns exactly to the innermost open checkpoint, and no checkpoint is open when the parse returns or raises.",
+    "state unchanged, restore returns exactly to the innermost open checkpoint, and no checkpoint is open when the parse returns or raises. "
+    "PestVM.tla models the interpreter as a small-step machine (frames, children buffers, the checkpoint protocol, fail()): TLC checks that it computes the reference outcome (Refines) and keeps Balanced / Discipline / "
+    "RestoreExact / FurthestInRange on the stack, trivia and modifier families; its checkpoint events and furthest-failure position are compared case by case with the real interpreter and generated parser (agreement is evidence, drift is a note, never a verdict).",
     REPLAY_NOTE + " PEEK[a..b] with indices outside the stack is outside the domain (pest fails, Python clamps; no statement pins it).",
     "DESIGN.md 2.2, 5 (C05)",
 )
@@ -115,7 +117,7 @@ check(
     "C13",
     "Failing cases of TLC-enumerated families and bundled grammars in four modes; bounds, names and rendering asserted; shown line:column and source line validated by TLC against LineCol.tla (ErrTrace.tla)",
     "Every failing parse of the enumerated families (including a multi-line family: failure at offset 0, at the end, on an empty line, after a trailing line break, inside predicates) and of the bundled grammars on "
-    "mutated, multi-line and non-ASCII inputs is checked for start <= p <= len or the sentinel, known rule names, and rendering; each distinct rendered (input, position, line:col, source line) is validated by TLC "
+    "mutated, multi-line and non-ASCII inputs is checked for start <= p <= len or the sentinel, rule names that are rules of the grammar as written or built-ins (not the optimizer's synthetic rules), and rendering; each distinct rendered (input, position, line:col, source line) is validated by TLC "
     "against the LineCol specification.",
     REPLAY_NOTE,
     "DESIGN.md 5 (C13)",
@@ -124,7 +126,8 @@ check(
     "C14",
     "LineCol.tla (TLC: bijection offsets <-> line/column, inverse, step characterisation) with the table for every text to the bound replayed into Position/Span/Pair; long non-ASCII texts validated as traces by TLC (LineColTrace.tla)",
     "Exhaustive within the bound: TLC enumerates all texts over {a, b, newline} to length 6 (quick) / 8 (thorough), checks that line/column and offsets determine each other, and emits LineCol/LineStart/LineEnd for every "
-    "offset; the harness compares line_col(), line_of(), Span.start_pos/end_pos/split/lines/str and Pair.line_col()/span() on all offsets and spans; seeded long and non-ASCII texts are logged offset by offset and "
+    "offset; the harness compares line_col(), line_of(), Span.start_pos/end_pos/split/lines/str and Pair.line_col()/span() on all offsets and spans, with the two ordinary symbols instantiated as letters, as "
+    "characters other conventions treat as line boundaries (\\r, \\x0c, \\x85, U+2028, ...) and as astral / combining characters; seeded long and non-ASCII texts are logged offset by offset and "
     "validated by TLC against the line/column counter machine.",
     "Trusted: TLC, CPython. Texts use \\n as the only line break. Span.lines(): inclusive or exclusive end offset and omission of the empty line after a final break are all accepted (no statement pins them).",
     "DESIGN.md 2.8, 5 (C14)",
@@ -132,7 +135,7 @@ check(
 check(
     "C18",
     "OpExpr.tla: declarative denoted tree (TLC checks uniqueness) and the Pratt loop transcribed (TLC checks it builds the denoted tree); every (table, stream, tree) instance replayed into a real PrattParser",
-    "Exhaustive within the bound: all operator tables (1-2 infix operators with each associativity, 0-1 prefix, 0-1 postfix, precedences 1..4) x all well-formed streams to 6 (quick) / 8 (thorough) tokens; TLC checks that "
+    "Exhaustive within the bound: all operator tables (1-2 infix operators with each associativity, 0-2 prefix, 0-2 postfix, precedences 1..4) x all well-formed streams to 6 (quick) / 8 (thorough) tokens; TLC checks that "
     "exactly one tree without precedence inversion exists and that the transcribed parse_expr builds it; the real PrattParser, fed synthetic Pairs, must build the same tree and consume the stream.",
     "Trusted: TLC, CPython. Tables are well-formed (a precedence level belongs to one fixity; equal-precedence infix operators share associativity).",
     "DESIGN.md 2.9, 5 (C18)",
@@ -153,7 +156,8 @@ check(
     "C11",
     "Exhaustive enumeration of all short strings over the grammar alphabet (TLC MetaShort.tla, plus one length further by the harness) and the C10 text streams, each loaded with and without the optimizer; outcome classification and position bounds",
     "Exhaustive within the bound: every string over the 25-symbol grammar alphabet up to length 3 (quick) / 4 (thorough) is enumerated by TLC with the recogniser's verdict, and of length 4 / 5 by the harness; together with "
-    "truncations, mutations and prefixes of valid grammars each text is loaded under a watchdog with optimizer=None and the default optimizer; the outcome must be a Parser or a PestGrammarError whose str() renders and whose "
+    "truncations, mutations and prefixes of valid grammars, and stress texts (chains of 200-1500 operands, nesting 100-1200 deep, numbers beyond 32 bits and beyond Python's int conversion limit, lone surrogates; loaded "
+    "under CPython's default recursion limit) each text is loaded under a watchdog with optimizer=None, the default optimizer and debug=True; the outcome must be a Parser or a PestGrammarError whose str() renders and whose "
     "line:column lies within the text.",
     "Trusted: TLC, CPython. Both column conventions accepted; an error without a position is allowed ('normally PestGrammarSyntaxError').",
     "DESIGN.md 5 (C11)",
@@ -182,7 +186,7 @@ check(
     "C15",
     "Isolation.tla enumerates creation/generation/parse histories, Reentrancy.tla models and enumerates thread schedules; histories replayed in pristine forked processes, schedules by a deterministic line-level scheduler; every logged (key, result) validated by TLC as functional in the key (IsolationTrace.tla)",
     "Every history of Create(g, opt)/Generate/Parse(ok|fail) up to length 3 (quick) / 4 (thorough) over three grammars sharing built-ins, lazy caches and a fused SKIP rule x three optimizer settings is replayed in a pristine forked "
-    "process, followed by every case on every live object; every schedule with at most two preemptions on a step lattice (TLC-enumerated from Reentrancy.tla, which also checks the design property) is replayed on shared interpreted "
+    "process (once with parsers loaded from the text, once with parsers built by the constructor from ONE shared rule mapping), followed by every case on every live object; every schedule with at most two preemptions on a step lattice (TLC-enumerated from Reentrancy.tla, which also checks the design property) is replayed on shared interpreted "
     "and generated parsers by a settrace-based scheduler, plus concurrent parser creation and uncontrolled stress; TLC validates that the complete log of (grammar, optimizer, interpreted/generated, case) -> digest(tree | failure "
     "position + expected/unexpected sets + rule stack + message) is a function.",
     "Trusted: TLC, CPython's fork and settrace. Line-level interleavings only (not inside a single bytecode line or the regex C extension).",
